@@ -1,0 +1,309 @@
+//go:build verif
+
+package mp4
+
+// ================================================================ C09: sample-table queries agree with ISO 14496-12
+// The specification functions below are the naive per-sample expansion of the run-length tables of ISO/IEC 14496-12
+// (8.6.1.2 stts, 8.6.1.3 ctts, 8.6.2 stss, 8.7.3 stsz, 8.7.4 stsc, 8.7.5 stco/co64).
+
+// ---------------------------------------------------------------- stsz (8.7.3)
+// sample_count = SampleNumber; size of sample i (1-based) = sample_size if sample_size != 0, else entry_size[i-1].
+
+// u32Sum(s, lo, hi) = s[lo] + ... + s[hi-1]
+//@ spec rec u32Sum(s []uint32, lo int, hi int) uint64 = ite(hi <= lo, uint64(0), u32Sum(s, lo, hi-1) + uint64(s[hi-1]))
+
+// representation produced by DecodeStszSR (stsz.go:48-52): the table is present exactly when the uniform size is 0
+//@ pred stszOK(b *StszBox) = (b.SampleUniformSize == 0 ==> len(b.SampleSize) == int(b.SampleNumber)) && (b.SampleUniformSize != 0 ==> len(b.SampleSize) == 0)
+
+//@ spec stszSize(b *StszBox, i int) uint32 = ite(b.SampleUniformSize != 0, b.SampleUniformSize, b.SampleSize[i-1])
+
+//@ func (*StszBox).GetNrSamples
+//@   requires stszOK(b)
+//@   ensures result == b.SampleNumber
+//@   assigns nothing
+
+//@ func (*StszBox).GetSampleSize
+//@   requires stszOK(b)
+//@   requires 1 <= i && i <= int(b.SampleNumber)
+//@   ensures result == stszSize(b, i)
+//@   assigns nothing
+
+// endNr == 0xFFFFFFFF (possible only with a 16 GiB table) makes the uint32 loop counter wrap: excluded, see report.
+//@ func (*StszBox).GetTotalSampleSize
+//@   requires stszOK(b)
+//@   requires b.SampleUniformSize == 0 ==> b.SampleNumber < 0xFFFFFFFF
+//@   ensures (result1 != nil) == (startNr == 0 || endNr > b.SampleNumber)
+//@   ensures result1 != nil ==> result0 == 0
+//@   ensures result1 == nil && endNr < startNr ==> result0 == 0
+//@   ensures result1 == nil && endNr >= startNr && b.SampleUniformSize != 0 ==> result0 == uint64(endNr - startNr + 1) * uint64(b.SampleUniformSize)
+//@   ensures result1 == nil && endNr >= startNr && b.SampleUniformSize == 0 ==> result0 == u32Sum(b.SampleSize, int(startNr) - 1, int(endNr))
+//@   assigns nothing
+//@   loop 1 invariant startNr <= nr && nr <= endNr + 1 && size == u32Sum(b.SampleSize, int(startNr) - 1, int(nr) - 1)
+
+// ---------------------------------------------------------------- stco / co64 (8.7.5)
+//@ func (*StcoBox).GetOffset
+//@   ensures (result1 != nil) == (chunkNr <= 0 || chunkNr > len(b.ChunkOffset))
+//@   ensures result1 != nil ==> result0 == 0
+//@   ensures result1 == nil ==> result0 == uint64(b.ChunkOffset[chunkNr-1])
+//@   assigns nothing
+
+//@ func (*Co64Box).GetOffset
+//@   ensures (result1 != nil) == (chunkNr <= 0 || chunkNr > len(b.ChunkOffset))
+//@   ensures result1 != nil ==> result0 == 0
+//@   ensures result1 == nil ==> result0 == b.ChunkOffset[chunkNr-1]
+//@   assigns nothing
+
+// ---------------------------------------------------------------- stts (8.6.1.2)
+// Entry j (0-based) covers SampleCount[j] consecutive samples of duration SampleTimeDelta[j].
+// sttsCount(cnt, n): number of samples covered by the first n entries.
+// sttsTime(cnt, dlt, n): decode time at the end of the first n entries (DT of the first sample after them), modulo 2^64.
+// Sample s (1-based) is sample r (0-based, r < cnt[k]) of entry k iff sttsCount(cnt,k) + r == s-1; then
+//     DT(s) = sttsTime(cnt,dlt,k) + r*dlt[k],   dur(s) = dlt[k].
+//@ spec rec sttsCount(cnt []uint32, n int) uint64 = ite(n <= 0, uint64(0), sttsCount(cnt, n-1) + uint64(cnt[n-1]))
+//@ spec rec sttsTime(cnt []uint32, dlt []uint32, n int) uint64 = ite(n <= 0, uint64(0), sttsTime(cnt, dlt, n-1) + uint64(cnt[n-1])*uint64(dlt[n-1]))
+
+// parallel slices, as made by DecodeSttsSR (stts.go:48-49)
+//@ pred sttsOK(b *SttsBox) = len(b.SampleCount) == len(b.SampleTimeDelta)
+//@ spec sttsTotal(b *SttsBox) uint64 = sttsCount(b.SampleCount, len(b.SampleCount))
+// Skolem functions for "the entry containing sample s" and "the 0-based position of s inside that entry": walk the
+// entries, rem = samples still to skip at entry k. Their values are only used as witnesses; what they mean is fixed by
+// sttsAt (checked in every postcondition): sample s is sample number r (0-based) of entry k.
+//@ spec rec sttsEnt(cnt []uint32, k int, rem uint32, n int) int = ite(k >= n || k < 0, n, ite(rem < cnt[k], k, sttsEnt(cnt, k+1, rem - cnt[k], n)))
+//@ spec rec sttsRem(cnt []uint32, k int, rem uint32, n int) uint32 = ite(k >= n || k < 0, rem, ite(rem < cnt[k], rem, sttsRem(cnt, k+1, rem - cnt[k], n)))
+//@ spec sttsEntry(b *SttsBox, s uint32) int = sttsEnt(b.SampleCount, 0, s - 1, len(b.SampleCount))
+//@ spec sttsPos(b *SttsBox, s uint32) uint32 = sttsRem(b.SampleCount, 0, s - 1, len(b.SampleCount))
+//@ pred sttsAt(b *SttsBox, s uint32, k int, r uint32) = 0 <= k && k < len(b.SampleCount) && r < b.SampleCount[k] && sttsCount(b.SampleCount, k) + uint64(r) == uint64(s) - 1
+// decode time of the sample at position r of entry k
+//@ spec sttsDTat(b *SttsBox, k int, r uint32) uint64 = sttsTime(b.SampleCount, b.SampleTimeDelta, k) + uint64(r) * uint64(b.SampleTimeDelta[k])
+
+//@ func (*SttsBox).GetDecodeTime
+//@   requires sttsOK(b)
+//@   requires 1 <= sampleNr && uint64(sampleNr) <= sttsTotal(b)
+//@   ensures sttsAt(b, sampleNr, sttsEntry(b, sampleNr), sttsPos(b, sampleNr))
+//@   ensures decTime == sttsDTat(b, sttsEntry(b, sampleNr), sttsPos(b, sampleNr))
+//@   ensures dur == b.SampleTimeDelta[sttsEntry(b, sampleNr)]
+//@   assigns nothing
+//@   loop 1 invariant 0 <= i && i < len(b.SampleCount) && sttsCount(b.SampleCount, i) + uint64(samplesRemaining) == uint64(sampleNr) - 1 && sttsCount(b.SampleCount, i) < uint64(sampleNr) && decTime == sttsTime(b.SampleCount, b.SampleTimeDelta, i)
+//@   loop 1 invariant sttsEntry(b, sampleNr) == sttsEnt(b.SampleCount, i, samplesRemaining, len(b.SampleCount)) && sttsPos(b, sampleNr) == sttsRem(b.SampleCount, i, samplesRemaining, len(b.SampleCount))
+// the next invariant is the previous one unfolded once; it spares the solver the unfolding in the (nonlinear) postcondition
+//@   loop 1 invariant samplesRemaining < b.SampleCount[i] ==> sttsEntry(b, sampleNr) == i && sttsPos(b, sampleNr) == samplesRemaining
+//@   loop 1 invariant samplesRemaining < b.SampleCount[i] && sttsEntry(b, sampleNr) == i && sttsPos(b, sampleNr) == samplesRemaining ==> sttsDTat(b, sttsEntry(b, sampleNr), sttsPos(b, sampleNr)) == decTime + uint64(samplesRemaining) * uint64(b.SampleTimeDelta[i])
+//@   loop 1 decreases len(b.SampleCount) - i
+
+//@ func (*SttsBox).GetDur
+//@   requires sttsOK(b)
+//@   requires 1 <= sampleNr && uint64(sampleNr) <= sttsTotal(b)
+//@   ensures sttsAt(b, sampleNr0, sttsEntry(b, sampleNr0), sttsPos(b, sampleNr0)) && dur == b.SampleTimeDelta[sttsEntry(b, sampleNr0)]
+//@   assigns nothing
+//@   loop 1 invariant 0 <= i && i <= len(b.SampleCount) && sttsCount(b.SampleCount, i) + uint64(sampleNr) == uint64(sampleNr0) - 1 && sttsCount(b.SampleCount, i) < uint64(sampleNr0)
+//@   loop 1 invariant sttsEntry(b, sampleNr0) == sttsEnt(b.SampleCount, i, sampleNr, len(b.SampleCount)) && sttsPos(b, sampleNr0) == sttsRem(b.SampleCount, i, sampleNr, len(b.SampleCount))
+
+// GetTimeCode stops at an entry boundary, so its witnesses use the relaxed position 0 <= r <= cnt[k] (position cnt[k]
+// of entry k is position 0 of the next non-empty entry: sttsTime(k) + cnt[k]*dlt[k] == sttsTime(k+1)).
+//@ spec rec tcEnt(cnt []uint32, k int, rem uint32, n int) int = ite(k >= n || k < 0, n, ite(rem <= cnt[k], k, tcEnt(cnt, k+1, rem - cnt[k], n)))
+//@ spec rec tcRem(cnt []uint32, k int, rem uint32, n int) uint32 = ite(k >= n || k < 0, rem, ite(rem <= cnt[k], rem, tcRem(cnt, k+1, rem - cnt[k], n)))
+//@ spec tcEntry(b *SttsBox, s uint32) int = tcEnt(b.SampleCount, 0, s - 1, len(b.SampleCount))
+//@ spec tcPos(b *SttsBox, s uint32) uint32 = tcRem(b.SampleCount, 0, s - 1, len(b.SampleCount))
+//@ pred sttsAtLe(b *SttsBox, s uint32, k int, r uint32) = 0 <= k && k < len(b.SampleCount) && r <= b.SampleCount[k] && sttsCount(b.SampleCount, k) + uint64(r) == uint64(s) - 1
+
+// ISO: the time code of sample s is DT(s) time units = DT(s) * 1s / timescale. The code accumulates DT in a uint32
+// (stts.go:78), so it agrees with ISO only while DT(s) < 2^32 (13.25 h at 90 kHz): clause ISO below FAILS (finding).
+//@ func (*SttsBox).GetTimeCode
+//@   requires sttsOK(b)
+//@   requires 1 <= sample && uint64(sample) <= sttsTotal(b)
+//@   requires timescale > 0
+//@   ensures sttsAtLe(b, sample0, tcEntry(b, sample0), tcPos(b, sample0))
+//@   ensures int64(result) == 1000000000 * int64(uint32(sttsDTat(b, tcEntry(b, sample0), tcPos(b, sample0)))) / int64(timescale)
+//@   ensures[ISO] sttsDTat(b, tcEntry(b, sample0), tcPos(b, sample0)) < (1 << 33) ==> int64(result) == 1000000000 * int64(sttsDTat(b, tcEntry(b, sample0), tcPos(b, sample0))) / int64(timescale)
+//@   assigns nothing
+//@   loop 1 decreases len(b.SampleCount) - i
+//@   loop 1 invariant 0 <= i && i <= len(b.SampleCount)
+//@   loop 1 invariant sample > 0 ==> sttsCount(b.SampleCount, i) + uint64(sample) == uint64(sample0) - 1 && sttsCount(b.SampleCount, i) < uint64(sample0) && units == uint32(sttsTime(b.SampleCount, b.SampleTimeDelta, i))
+//@   loop 1 invariant sample > 0 ==> tcEntry(b, sample0) == tcEnt(b.SampleCount, i, sample, len(b.SampleCount)) && tcPos(b, sample0) == tcRem(b.SampleCount, i, sample, len(b.SampleCount))
+// the next two invariants are consequences of the previous ones (one unfolding), stated to spare the solver the unfolding inside nonlinear goals
+//@   loop 1 invariant i < len(b.SampleCount) && sample > 0 && sample <= b.SampleCount[i] ==> tcEntry(b, sample0) == i && tcPos(b, sample0) == sample
+//@   loop 1 invariant i < len(b.SampleCount) && sample > 0 && tcEntry(b, sample0) == i && tcPos(b, sample0) == sample ==> uint32(sttsDTat(b, tcEntry(b, sample0), tcPos(b, sample0))) == units + sample * b.SampleTimeDelta[i]
+//@   loop 1 invariant i < len(b.SampleCount) && sample > 0 && sample == b.SampleCount[i] && tcEntry(b, sample0) == i && tcPos(b, sample0) == sample ==> uint32(sttsDTat(b, tcEntry(b, sample0), tcPos(b, sample0))) == units + b.SampleCount[i] * b.SampleTimeDelta[i]
+//@   loop 1 invariant sample > 0 ==> i < len(b.SampleCount)
+// (trivial by substitution; stated so that the division in the postcondition needs no bit-level reasoning)
+//@   loop 1 invariant units == uint32(sttsDTat(b, tcEntry(b, sample0), tcPos(b, sample0))) ==> 1000000000 * int64(units) / int64(timescale) == 1000000000 * int64(uint32(sttsDTat(b, tcEntry(b, sample0), tcPos(b, sample0)))) / int64(timescale)
+//@   loop 1 invariant sample == 0 ==> sttsAtLe(b, sample0, tcEntry(b, sample0), tcPos(b, sample0)) && units == uint32(sttsDTat(b, tcEntry(b, sample0), tcPos(b, sample0)))
+
+// GetSampleNrAtTime(t): the first sample whose decode time is >= t ("sample at a time").
+// snEnt: Skolem function for the first entry k with t < sttsTime(k+1) (n if there is none).
+//@ spec rec snEnt(cnt []uint32, dlt []uint32, k int, t uint64, n int) int = ite(k >= n || k < 0, n, ite(t < sttsTime(cnt, dlt, k+1), k, snEnt(cnt, dlt, k+1, t, n)))
+//@ spec snEntry(b *SttsBox, t uint64) int = snEnt(b.SampleCount, b.SampleTimeDelta, 0, t, len(b.SampleCount))
+//@ spec ceilDiv(a uint64, d uint64) uint64 = ite(a % d != 0, a / d + 1, a / d)
+//@ spec sttsEnd(b *SttsBox) uint64 = sttsTime(b.SampleCount, b.SampleTimeDelta, len(b.SampleCount))
+// the ISO special case: only the last sample may have duration 0; it is then found at t == end of the table
+//@ pred snLastZero(b *SttsBox, t uint64) = b.SampleTimeDelta[len(b.SampleCount)-1] == 0 && b.SampleCount[len(b.SampleCount)-1] == 1 && t == sttsEnd(b)
+
+// sample numbers fit in 32 bits (ISO sample numbers are 32-bit)
+//@ pred sttsCountsFit(b *SttsBox) = sttsTotal(b) <= 0xFFFFFFFF
+
+// Preconditions: a non-empty table (FINDING: an empty stts panics at stts.go:204), fewer than 2^32 samples.
+// Times are stated modulo 2^64 (sttsTime wraps like the code does). With K = snEntry(b, t):
+//   K <  len: sttsTime(K) <= t < sttsTime(K+1), result = count(K) + ceil((t - sttsTime(K)) / dlt[K]) + 1, no error
+//   K == len: t >= end of table; error unless the ISO special case (last sample of duration 0 starting exactly at t)
+// Clause ISO (the returned sample exists) FAILS: for DT(last) < t < end of table the code returns total+1 without error.
+//@ func (*SttsBox).GetSampleNrAtTime
+//@   requires sttsOK(b) && sttsCountsFit(b)
+//@   requires len(b.SampleCount) > 0
+//@   ensures 0 <= snEntry(b, sampleStartTime) && snEntry(b, sampleStartTime) <= len(b.SampleCount)
+//@   ensures (err != nil) == (snEntry(b, sampleStartTime) == len(b.SampleCount) && !snLastZero(b, sampleStartTime))
+//@   ensures err != nil ==> sampleNr == 0
+//@   ensures snEntry(b, sampleStartTime) == len(b.SampleCount) ==> sampleStartTime >= sttsEnd(b)
+//@   ensures err == nil && snEntry(b, sampleStartTime) == len(b.SampleCount) ==> uint64(sampleNr) == sttsTotal(b)
+//@   ensures snEntry(b, sampleStartTime) != len(b.SampleCount) ==> sttsTime(b.SampleCount, b.SampleTimeDelta, snEntry(b, sampleStartTime)) <= sampleStartTime && sampleStartTime < sttsTime(b.SampleCount, b.SampleTimeDelta, snEntry(b, sampleStartTime) + 1)
+//@   ensures snEntry(b, sampleStartTime) != len(b.SampleCount) ==> b.SampleTimeDelta[snEntry(b, sampleStartTime)] != 0
+//@   ensures snEntry(b, sampleStartTime) != len(b.SampleCount) ==> sampleNr == uint32(sttsCount(b.SampleCount, snEntry(b, sampleStartTime))) + uint32(ceilDiv(sampleStartTime - sttsTime(b.SampleCount, b.SampleTimeDelta, snEntry(b, sampleStartTime)), uint64(b.SampleTimeDelta[snEntry(b, sampleStartTime)]))) + 1
+//@   ensures[ISO] err == nil ==> uint64(sampleNr) <= sttsTotal(b)
+//@   assigns nothing
+//@   loop 1 invariant 0 <= i && i <= nrEntries && nrEntries == len(b.SampleCount)
+//@   loop 1 invariant accTime == sttsTime(b.SampleCount, b.SampleTimeDelta, i) && accNr == uint32(sttsCount(b.SampleCount, i)) && accTime <= sampleStartTime
+//@   loop 1 invariant snEntry(b, sampleStartTime) == snEnt(b.SampleCount, b.SampleTimeDelta, i, sampleStartTime, len(b.SampleCount))
+// consequences of the invariants above (one unfolding / substitution), stated to keep unfolding out of the nonlinear goals
+//@   loop 1 invariant i < nrEntries ==> accTime + uint64(b.SampleCount[i])*uint64(b.SampleTimeDelta[i]) == sttsTime(b.SampleCount, b.SampleTimeDelta, i+1)
+//@   loop 1 invariant i < nrEntries && sampleStartTime < sttsTime(b.SampleCount, b.SampleTimeDelta, i+1) ==> snEntry(b, sampleStartTime) == i
+//@   loop 1 invariant i < nrEntries && snEntry(b, sampleStartTime) == i ==> ceilDiv(sampleStartTime - sttsTime(b.SampleCount, b.SampleTimeDelta, snEntry(b, sampleStartTime)), uint64(b.SampleTimeDelta[snEntry(b, sampleStartTime)])) == ceilDiv(sampleStartTime - sttsTime(b.SampleCount, b.SampleTimeDelta, i), uint64(b.SampleTimeDelta[i]))
+
+// ---------------------------------------------------------------- stss (8.6.2)
+// sample s is a sync sample iff its number is listed; ISO: the list is in strictly increasing order
+//@ pred stssSorted(b *StssBox) = forall j int :: forall k int :: 0 <= j && j < k && k < len(b.SampleNumber) ==> b.SampleNumber[j] < b.SampleNumber[k]
+//@ pred stssListed(b *StssBox, s uint32) = exists k int :: 0 <= k && k < len(b.SampleNumber) && b.SampleNumber[k] == s
+
+//@ func (*StssBox).IsSyncSample
+//@   requires stssSorted(b)
+//@   ensures isSync == stssListed(b, sampleNr)
+//@   assigns nothing
+//@   loop 1 invariant 0 <= i && i <= j && j <= nrSamples && nrSamples == len(b.SampleNumber)
+//@   loop 1 invariant forall k int :: 0 <= k && k < i ==> b.SampleNumber[k] < sampleNr
+//@   loop 1 invariant forall k int :: j <= k && k < nrSamples ==> b.SampleNumber[k] >= sampleNr
+//@   loop 1 decreases j - i
+
+// ---------------------------------------------------------------- ctts (8.6.1.3)
+// The box stores, instead of the ISO sample_count of each entry, the cumulated counts: EndSampleNr[k] is the number of
+// samples covered by the first k entries (EndSampleNr[0] == 0; built by DecodeCttsSR ctts.go:48-56 and
+// AddSampleCountsAndOffset ctts.go:119-127), so sample_count[k] == EndSampleNr[k+1] - EndSampleNr[k] (SampleCount(k)).
+// Sample s lies in entry k iff EndSampleNr[k] < s <= EndSampleNr[k+1]; its composition offset is SampleOffset[k].
+// cttsOK additionally says that the cumulated counts did not wrap around 2^32 (non-decreasing).
+//@ pred cttsOK(b *CttsBox) = len(b.EndSampleNr) == len(b.SampleOffset) + 1 && b.EndSampleNr[0] == 0 && (forall j int :: forall k int :: 0 <= j && j <= k && k < len(b.EndSampleNr) ==> b.EndSampleNr[j] <= b.EndSampleNr[k])
+//@ spec cttsTotal(b *CttsBox) uint32 = b.EndSampleNr[len(b.EndSampleNr)-1]
+//@ pred cttsIn(b *CttsBox, s uint32, k int) = 0 <= k && k < len(b.SampleOffset) && b.EndSampleNr[k] < s && s <= b.EndSampleNr[k+1]
+
+//@ func (*CttsBox).NrSampleCount
+//@   ensures result == len(b.SampleOffset)
+//@   assigns nothing
+
+//@ func (*CttsBox).SampleCount
+//@   requires cttsOK(b)
+//@   requires 0 <= i && i < len(b.SampleOffset)
+//@   ensures result == b.EndSampleNr[i+1] - b.EndSampleNr[i]
+//@   assigns nothing
+
+//@ func (*CttsBox).GetCompositionTimeOffset
+//@   requires cttsOK(b)
+//@   requires 1 <= sampleNr && sampleNr <= cttsTotal(b)
+//@   ensures exists k int :: cttsIn(b, sampleNr, k) && result == b.SampleOffset[k]
+//@   assigns nothing
+//@   loop 1 invariant 0 <= i && i <= j && j <= len(b.EndSampleNr)
+//@   loop 1 invariant forall k int :: 0 <= k && k < i ==> b.EndSampleNr[k] < sampleNr
+//@   loop 1 invariant forall k int :: j <= k && k < len(b.EndSampleNr) ==> b.EndSampleNr[k] >= sampleNr
+//@   loop 1 decreases j - i
+
+// ---------------------------------------------------------------- stsc (8.7.4)
+// Entry k = (FirstChunk, SamplesPerChunk, sample description index) describes the run of chunks FirstChunk[k] ..
+// FirstChunk[k+1]-1 (the last run extends to the last chunk of stco/co64). Naive expansion: the first sample number of
+// run k is  stscFirst(k) = 1 + sum_{j<k} (FirstChunk[j+1]-FirstChunk[j]) * SamplesPerChunk[j]  (modulo 2^32 like the code);
+// chunk c of run k starts at sample stscFirst(k) + (c-FirstChunk[k])*SamplesPerChunk[k] and holds SamplesPerChunk[k] samples;
+// sample s of run k lies in chunk FirstChunk[k] + (s-stscFirst(k)) / SamplesPerChunk[k].
+//@ spec rec stscFirst(es []StscEntry, n int) uint32 = ite(n <= 0, uint32(1), stscFirst(es, n-1) + (es[n].FirstChunk - es[n-1].FirstChunk) * es[n-1].SamplesPerChunk)
+
+// stscOK: the FirstSampleNr cache agrees with the expansion (DecodeStscSR stsc.go:63-69, AddEntry stsc.go:160,175-176),
+// chunk runs start at chunk 1 and are strictly increasing, no run has 0 samples per chunk, and the cached first sample
+// numbers are strictly increasing (i.e. the expansion does not wrap around 2^32). The last three are file consistency
+// conditions that no decoder checks.
+//@ pred stscCacheOK(b *StscBox) = forall k int :: 0 <= k && k < len(b.Entries) ==> b.Entries[k].FirstSampleNr == stscFirst(b.Entries, k)
+//@ pred stscChunksSorted(b *StscBox) = forall j int :: forall k int :: 0 <= j && j < k && k < len(b.Entries) ==> b.Entries[j].FirstChunk < b.Entries[k].FirstChunk
+//@ pred stscSamplesSorted(b *StscBox) = forall j int :: forall k int :: 0 <= j && j < k && k < len(b.Entries) ==> b.Entries[j].FirstSampleNr < b.Entries[k].FirstSampleNr
+//@ pred stscSpcOK(b *StscBox) = forall k int :: 0 <= k && k < len(b.Entries) ==> b.Entries[k].SamplesPerChunk > 0
+//@ pred stscOK(b *StscBox) = len(b.Entries) > 0 && len(b.Entries) < (1 << 31) && b.Entries[0].FirstChunk == 1 && b.Entries[0].FirstSampleNr == 1 && stscCacheOK(b) && stscChunksSorted(b) && stscSamplesSorted(b) && stscSpcOK(b)
+
+// sample s lies in run k / chunk c lies in run k
+//@ pred stscSampleIn(b *StscBox, s uint32, k int) = 0 <= k && k < len(b.Entries) && b.Entries[k].FirstSampleNr <= s && (k + 1 < len(b.Entries) ==> s < b.Entries[k+1].FirstSampleNr)
+//@ pred stscChunkIn(b *StscBox, c uint32, k int) = 0 <= k && k < len(b.Entries) && b.Entries[k].FirstChunk <= c && (k + 1 < len(b.Entries) ==> c < b.Entries[k+1].FirstChunk)
+
+// (the binary searches need only the part of stscOK they use; fewer quantifiers for the solver)
+//@ func (*StscBox).FindEntryNrForSampleNr
+//@   requires len(b.Entries) < (1 << 31) && stscSamplesSorted(b)
+//@   requires int(lowEntryIdx) < len(b.Entries) && b.Entries[lowEntryIdx].FirstSampleNr <= sampleNr
+//@   ensures result >= lowEntryIdx && stscSampleIn(b, sampleNr, int(result))
+//@   assigns nothing
+//@   loop 1 invariant lowEntryIdx <= low && low <= high && int(high) <= len(b.Entries) && low >= 0
+//@   loop 1 invariant forall k int :: int(lowEntryIdx) <= k && k < int(low) ==> b.Entries[k].FirstSampleNr <= sampleNr
+//@   loop 1 invariant low == lowEntryIdx ==> b.Entries[low].FirstSampleNr <= sampleNr
+//@   loop 1 invariant forall k int :: int(high) <= k && k < len(b.Entries) ==> b.Entries[k].FirstSampleNr > sampleNr
+//@   loop 1 decreases int(high) - int(low)
+
+//@ func (*StscBox).findEntryNrForChunkNr
+//@   requires len(b.Entries) > 0 && len(b.Entries) < (1 << 31) && b.Entries[0].FirstChunk == 1 && stscChunksSorted(b)
+//@   requires chunkNr >= 1
+//@   ensures stscChunkIn(b, chunkNr, int(result))
+//@   assigns nothing
+//@   loop 1 invariant 0 <= low && low <= high && high <= len(b.Entries)
+//@   loop 1 invariant forall k int :: 0 <= k && k < low ==> b.Entries[k].FirstChunk <= chunkNr
+//@   loop 1 invariant forall k int :: high <= k && k < len(b.Entries) ==> b.Entries[k].FirstChunk > chunkNr
+//@   loop 1 decreases high - low
+
+// ChunkNrFromSampleNr: sampleNr is an int but is truncated to uint32 (stsc.go:198): precondition 1 <= sampleNr < 2^32.
+// Chunk numbers are stated modulo 2^32 like the code (the last run is unbounded in stsc alone).
+//@ func (*StscBox).ChunkNrFromSampleNr
+//@   requires stscOK(b)
+//@   requires 1 <= sampleNr && sampleNr <= 0xFFFFFFFF
+//@   ensures err == nil
+//@   ensures exists k int :: stscSampleIn(b, uint32(sampleNr), k) && b.Entries[k].FirstSampleNr == stscFirst(b.Entries, k) && chunkNr == int(b.Entries[k].FirstChunk + (uint32(sampleNr) - b.Entries[k].FirstSampleNr) / b.Entries[k].SamplesPerChunk) && firstSampleInChunk == int(b.Entries[k].FirstSampleNr + ((uint32(sampleNr) - b.Entries[k].FirstSampleNr) / b.Entries[k].SamplesPerChunk) * b.Entries[k].SamplesPerChunk)
+// not proved (both solvers time out on the 32-bit identity a - (a/d)*d < d): the chunk found really contains the sample,
+//   firstSampleInChunk <= sampleNr && sampleNr - firstSampleInChunk < b.Entries[k].SamplesPerChunk
+//@   assigns nothing
+
+//@ func (*StscBox).GetChunk
+//@   requires stscOK(b)
+//@   requires chunkNr >= 1
+//@   ensures exists k int :: stscChunkIn(b, chunkNr, k) && result.ChunkNr == chunkNr && result.NrSamples == b.Entries[k].SamplesPerChunk && result.StartSampleNr == stscFirst(b.Entries, k) + (chunkNr - b.Entries[k].FirstChunk) * b.Entries[k].SamplesPerChunk
+//@   assigns nothing
+
+// Sample description index: one value per run (entry), or a single value for all runs.
+//@ pred stscSdiOK(b *StscBox) = b.singleSampleDescriptionID != 0 || len(b.SampleDescriptionID) == len(b.Entries)
+//@ spec stscSdi(b *StscBox, k int) uint32 = ite(b.singleSampleDescriptionID != 0, b.singleSampleDescriptionID, b.SampleDescriptionID[k])
+
+// GetSampleDescriptionID(chunkNr): documented as "for chunk", ISO: the index of the run containing the chunk (clause ISO).
+// The code indexes the per-run slice with chunkNr-1, i.e. it treats its argument as a 1-based ENTRY number: clause ISO and,
+// for chunkNr > number of entries, the index check FAIL (finding; cmd/mp4ff-crop/main.go:483 passes a chunk number).
+// What is proved is the entry-number reading (requires 1 <= chunkNr <= number of entries).
+//@ func (*StscBox).GetSampleDescriptionID
+//@   requires stscOK(b) && stscSdiOK(b)
+//@   requires 1 <= chunkNr && chunkNr <= len(b.Entries)
+//@   ensures result == stscSdi(b, chunkNr - 1)
+//@   ensures[ISO] exists k int :: stscChunkIn(b, uint32(chunkNr), k) && result == stscSdi(b, k)
+//@   assigns nothing
+
+//@ func (*StscBox).SetSingleSampleDescriptionID
+//@   ensures b.singleSampleDescriptionID == sampleDescriptionID && len(b.SampleDescriptionID) == 0
+//@   ensures sampleDescriptionID != 0 ==> stscSdiOK(b) && (forall k int :: 0 <= k && k < len(b.Entries) ==> stscSdi(b, k) == sampleDescriptionID)
+//@   ensures len(b.Entries) == old(len(b.Entries)) && (forall k int :: 0 <= k && k < len(b.Entries) ==> b.Entries[k] == old(b.Entries[k]))
+//@   assigns b.singleSampleDescriptionID, b.SampleDescriptionID
+
+// GetContainingChunks: proved here are the error behaviour, absence of panics (the run cursor stays inside the table)
+// and that the list holds consecutive chunk numbers; see the report for what is not proved.
+//@ spec stscChunkOf(b *StscBox, s uint32, k int) uint32 = (s - b.Entries[k].FirstSampleNr) / b.Entries[k].SamplesPerChunk + b.Entries[k].FirstChunk
+//@ func (*StscBox).GetContainingChunks
+//@   requires len(b.Entries) > 0 && len(b.Entries) < (1 << 31) && b.Entries[0].FirstSampleNr == 1 && stscSamplesSorted(b) && stscSpcOK(b)
+//@   requires forall k int :: stscSampleIn(b, endSampleNr, k) ==> stscChunkOf(b, endSampleNr, k) < 0xFFFFFFFF
+//@   ensures (result1 != nil) == (startSampleNr == 0 || endSampleNr < startSampleNr)
+//@   ensures result1 != nil ==> len(result0) == 0
+//@   ensures result1 == nil ==> (forall j int :: 0 <= j && j < len(result0) ==> result0[j].ChunkNr == result0[0].ChunkNr + uint32(j))
+//@   loop 1 invariant int(entryNr) < len(b.Entries) && nrEntries == uint32(len(b.Entries))
+//@   loop 1 invariant startChunkNr <= chunkNr && endChunkNr < 0xFFFFFFFF
+//@   loop 1 invariant len(chunks) == int(chunkNr - startChunkNr)
+//@   loop 1 invariant ref(chunks) != ref(b.Entries)
+//@   loop 1 invariant forall j int :: 0 <= j && j < len(chunks) ==> chunks[j].ChunkNr == startChunkNr + uint32(j)
